@@ -280,3 +280,101 @@ func VH_C20_union_active_member_only() {
 		vAssert(b.b[n-1] == ')', "C20.union.closed")
 	}
 }
+
+// fourth schema (two variants that describe the SAME type id with different field names): struct W
+// { <name> @0 :UInt64; s @1 :Int64; }. 64-bit scalars are rendered by the formatter of their own
+// signedness from exactly the accessor value; after UseRegistry the encoder follows the NEW registry
+// however much it rendered before.
+const vTypeW = 0xabcdef0123456704
+
+func vSchema4(first string) *schemas.Registry {
+	msg, seg, err := capnp.NewMessage(capnp.SingleSegment(nil))
+	vAssume(err == nil)
+	req, err := schema.NewRootCodeGeneratorRequest(seg)
+	vAssume(err == nil)
+	nodes, err := req.NewNodes(1)
+	vAssume(err == nil)
+	n := nodes.At(0)
+	n.SetId(vTypeW)
+	vAssume(n.SetDisplayName("t.capnp:W") == nil)
+	n.SetDisplayNamePrefixLength(8)
+	n.SetStructNode()
+	sn := n.StructNode()
+	sn.SetDataWordCount(2)
+	fl, err := sn.NewFields(2)
+	vAssume(err == nil)
+	vField(fl, 0, first, 0).SetUint64()
+	vField(fl, 1, "s", 1).SetInt64()
+	d0, err := fl.At(0).Slot().NewDefaultValue()
+	vAssume(err == nil)
+	d0.SetUint64(0)
+	d1, err := fl.At(1).Slot().NewDefaultValue()
+	vAssume(err == nil)
+	d1.SetInt64(0)
+	data, err := msg.Marshal()
+	vAssume(err == nil)
+	reg := new(schemas.Registry)
+	vAssume(reg.Register(&schemas.Schema{Bytes: data, Nodes: []uint64{vTypeW}}) == nil)
+	return reg
+}
+
+func vRefW(first string, u uint64, s int64) []byte {
+	var want []byte
+	want = append(want, '(')
+	want = append(want, first...)
+	want = append(want, " = "...)
+	want = strconv.AppendUint(want, u, 10)
+	want = append(want, ", s = "...)
+	want = strconv.AppendInt(want, s, 10)
+	return append(want, ')')
+}
+
+func VH_C20_int64_fields_and_registry_switch() {
+	regA, regB := vSchema4("u"), vSchema4("v")
+	_, seg, err := capnp.NewMessage(capnp.SingleSegment(nil))
+	vAssume(err == nil)
+	st, err := capnp.NewStruct(seg, capnp.ObjectSize{DataSize: 16})
+	vAssume(err == nil)
+	u, s := vNondetU64(), int64(vNondetU64())
+	if vNondetBool() {
+		// values on which the signed and the unsigned formatter differ (a mix-up replays natively)
+		vAssume(u >= 1<<63 && s < 0)
+	}
+	st.SetUint64(0, u)
+	st.SetUint64(8, uint64(s))
+	b := &vBuf{}
+	enc := NewEncoder(b)
+	enc.UseRegistry(regA)
+	prior := vConcI3(int(vNondetU8()))
+	for i := 0; i < prior; i++ {
+		vAssume(enc.Encode(vTypeW, st) == nil)
+	}
+	b.b = nil
+	err = enc.Encode(vTypeW, st)
+	vReach("rendered-a")
+	vAssert(err == nil, "C20.w.no-error")
+	want := vRefW("u", u, s)
+	vAssert(len(b.b) == len(want), "C20.w.64-bit-fields-use-the-formatter-of-their-signedness")
+	if len(b.b) == len(want) && len(want) >= 6 {
+		vAssert(b.b[1] == 'u' && b.b[len(want)-1] == ')', "C20.w.shape")
+	}
+	// switch the registry: the same type id now names its first field differently
+	enc.UseRegistry(regB)
+	b.b = nil
+	err = enc.Encode(vTypeW, st)
+	vReach("rendered-b")
+	vAssert(err == nil, "C20.switch.no-error")
+	if err == nil && len(b.b) >= 2 {
+		vAssert(b.b[1] == 'v', "C20.switch.output-follows-the-new-registry")
+	}
+}
+
+func vConcI3(x int) int {
+	for i := 0; i < 3; i++ {
+		if x == i {
+			return i
+		}
+	}
+	vAssume(false)
+	return 0
+}
